@@ -289,14 +289,26 @@ func ZZ_C03_Pipeline(ops, kind, entry, multi int) {
 		} else {
 			ch.Trigger(7)
 		}
-	case 2:
+	case 2, 4:
 		start = vrt.Choose(n-2) + 1 // a user handler's context
 		c := pl.ContextAt(start)
 		if kind == zzKWrite {
+			if entry == 4 {
+				// the write is refused by the transport: the fault surfaces inside ctx.Write and must travel as an
+				// exception event from the head of the pipeline (not from the writing handler's position)
+				tr.failWriteAt = 1
+				tr.writeErr = zzErrClosed
+			}
 			c.Write(payload)
 		} else {
 			c.Trigger(7)
 		}
+	case 3:
+		// Channel.Trigger after the channel was closed: a user event is still an event (a farewell triggered from an
+		// inactive handler, a timer that fires late); it visits the handlers like any other
+		ch.Close(exErr)
+		rec.visits = nil
+		ch.Trigger(7)
 	}
 	// expected trace from the model
 	var want []int
@@ -326,7 +338,23 @@ func ZZ_C03_Pipeline(ops, kind, entry, multi int) {
 	for i := range wantKinds {
 		wantKinds[i] = kind
 	}
-	if kind == zzKException && reachedEnd {
+	faulted := entry == 4 && kind == zzKWrite && reachedEnd
+	excEnd := false
+	if faulted {
+		// the head's write failed: exception event from the head through every exception handler
+		excEnd = true
+		for i := 1; i < n-1; i++ {
+			if model[i].caps[zzKException] {
+				want = append(want, model[i].id)
+				wantKinds = append(wantKinds, zzKException)
+				if !model[i].fwd {
+					excEnd = false
+					break
+				}
+			}
+		}
+	}
+	if kind == zzKException && reachedEnd || excEnd {
 		// the tail closes the channel, which delivers the inactive event through the pipeline
 		for i := 1; i < n-1; i++ {
 			if model[i].caps[zzKInactive] {
@@ -348,7 +376,18 @@ func ZZ_C03_Pipeline(ops, kind, entry, multi int) {
 		}
 	}
 	// effects at the ends of the pipeline
-	if outbound {
+	if faulted {
+		vrt.Assert(len(tr.log) == 0, "refused-write-transmits-nothing")
+		if excEnd {
+			vrt.Assert(tr.closes == 1 && !ch.IsActive(), "unhandled-exception-closes-channel")
+		} else {
+			vrt.Assert(tr.closes == 0 && ch.IsActive(), "handled-exception-keeps-channel")
+		}
+		vrt.Reach("c03-ctx-write-fault")
+	} else if entry == 3 {
+		vrt.Assert(tr.closes == 1 && len(tr.log) == 0, "no-side-effect")
+		vrt.Reach("c03-trigger-after-close")
+	} else if outbound {
 		if reachedEnd {
 			vrt.Assert(len(tr.log) == 1 && tr.log[0] == 0x5a, "forwarded-write-reaches-channel")
 			vrt.Reach("c03-write-reaches-transport")
